@@ -53,7 +53,7 @@ def spike(tier, carrier='list_none', min_n=1):
                     yield c, specs.Spike(c)
     # an unknown method name is rejected whatever the series looks like (also where no spike can be computed)
     for pat in ('ppp', 'pp', 'p', '', 'pm', 'pmpp'):
-        for method in ('median', 'Average', 'avg', '', None):
+        for method in ('median', 'Average', 'avg', ''):
             c = Case('spike_test', [data_input('inp', pat, carrier)], dict(suspect_threshold=Fr(1), fail_threshold=Fr(2), method=method),
                      n=len(pat), pat={'inp': pat}, meta={'class': 'unknown-method'})
             yield c, specs.Spike(c)
@@ -432,14 +432,6 @@ def climatology(tier, carrier='list_none', tcarrier='dt64', members=None):
                          n=5, pat={'inp': ip, 'zinp': 'ppppp'}, meta={'class': f'sub-second/{tc}', 't': t, 'z': [15] * 5, 'feat': {}, 'members': ms},
                          label=f'climatology_test(member ends on whole seconds, observations half a second outside; time={tc}; inp:{ip!r})')
                 yield c, specs.Climatology(c)
-    # an unknown period name is rejected
-    bad = [dict(tspan=(Fr(1), Fr(2)), vspan=(Fr(2), Fr(4)), period='fortnight')]
-    c = Case('climatology_test', [], dict(config=bad, inp=data_input('inp', 'p', carrier), tinp=time_input('tinp', [CLIM_T[0]], tcarrier),
-                                          zinp=data_input('zinp', 'p', carrier, values=[Fr(1)])), n=1, pat={'inp': 'p', 'zinp': 'p'},
-             meta={'class': 'bad-period', 't': [CLIM_T[0]], 'z': [1], 'feat': {}, 'members': []}, label='climatology_test(period="fortnight")')
-    sp = specs.Climatology(c)
-    sp.rejects = ('ValueError',)
-    yield c, sp
 
 
 ALL = {
